@@ -79,8 +79,18 @@ Definition preference (a b : attr) (i j : nat) : nat * str :=
     let '(p, c) := if a_is_attribute b then (j, b) else (i, a) in
     (p, a_name c ++ us ++ a_tag c).
 
+(* all slugs except the one at position p *)
+Fixpoint slugs_except (p : nat) (l : list attr) : list str :=
+  match l, p with
+  | [], _ => []
+  | _ :: r, O => map a_slug r
+  | a :: r, S k => a_slug a :: slugs_except k r
+  end.
+
+(* since the fix for C07-F2 the renamed attr goes through unique_name against the others *)
 Definition rename_by_preference (l : list attr) (i j : nat) : list attr :=
-  let '(p, n) := preference (get l i) (get l j) i j in set_name p n l.
+  let '(p, n) := preference (get l i) (get l j) i j in
+  set_name p (unique_name n (slugs_except p l)) l.
 
 (* ---- rename_attributes_by_index: `items` = rename[1:] *)
 Fixpoint rename_by_index (l : list attr) (items : list nat) : list attr :=
@@ -99,28 +109,6 @@ Definition rename_group (l : list attr) (g : list nat) : list attr :=
 
 Definition rename_duplicate_attributes (l : list attr) : list attr :=
   fold_left rename_group (group_by (map attr_key l)) l.
-
-(* The same run, also answering: did every by-preference rename pick a slug that no
-   OTHER attr had at that moment?  (guard clause of fields_distinct_after_rename) *)
-Fixpoint slugs_except (p : nat) (l : list attr) : list str :=
-  match l, p with
-  | [], _ => []
-  | _ :: r, O => map a_slug r
-  | a :: r, S k => a_slug a :: slugs_except k r
-  end.
-
-Definition preference_fresh (l : list attr) (g : list nat) : bool :=
-  match g with
-  | [i; j] => if negb (a_is_enumeration (get l i)) then
-                let '(p, n) := preference (get l i) (get l j) i j in
-                negb (str_in (alnum n) (slugs_except p l))
-              else true
-  | _ => true
-  end.
-
-Definition rename_checked (l : list attr) : list attr * bool :=
-  fold_left (fun st g => (rename_group (fst st) g, snd st && preference_fresh (fst st) g))
-            (group_by (map attr_key l)) (l, true).
 
 (* ------------------------------------------------------------------ classes *)
 Record cls := mk_cls { c_ns : str; c_name : str; c_element : bool; c_abstract : bool }.
